@@ -762,7 +762,25 @@ func generate(seed uint64, p Params, run *Runner) {
 			}
 		}
 	}
+	// table-size episodes (gen_table.go): right after the preamble or somewhere in the schedule
+	episodeAt := map[int]int{}
+	for k := 0; k < p.TblEpisodes; k++ {
+		at := 0
+		if p.NOps > 1 && r.Chance(50) {
+			at = r.Intn(p.NOps)
+		}
+		episodeAt[at]++
+	}
 	for i := 0; i < p.NOps; i++ {
+		for ; episodeAt[i] > 0; episodeAt[i]-- {
+			if g.snd["c"].cont || g.snd["s"].cont {
+				episodeAt[i+1] += episodeAt[i] // a header block is being sent: after it
+				break
+			}
+			if !g.tableEpisode(do) {
+				return
+			}
+		}
 		if p.E2E != nil && i == p.NOps/2 {
 			// the connection outlives the proxy's HTTP/1 timeouts: silent, or with a frame every few
 			// tens of milliseconds (each followed by its barrier pair: both relay directions stay in use)
